@@ -90,6 +90,9 @@ func (vm *VM) FindModuleByName(name string) *Module {
 func (vm *VM) CheckDepedency(name string) error {
 	moduleID, exists := vm.moduleGraph.GetIDFromName(name)
 	if exists {
+		// record the import itself first: no edge was added when the imported module
+		// already existed (it is being loaded right now, or was loaded earlier)
+		vm.moduleGraph.AddDependency(vm.csModuleID, name, moduleID)
 		// check circular dependency
 		if vm.moduleGraph.CheckCircularDepedency(vm.csModuleID, moduleID) {
 			return zerr.ModuleCircularDependency()
